@@ -297,6 +297,25 @@ func main() {
 			if i != len(m) {
 				k.Violate("iter-mismatch", "count", fmt.Sprintf("%d of %d", i, len(m)), nil)
 			}
+			// an iterator's ToSlice always gives the whole set, wherever the iterator stands
+			{
+				it2 := s.Iter()
+				adv := r.Intn(len(m) + 2)
+				for j := 0; j < adv; j++ {
+					it2.Next()
+				}
+				sl := it2.ToSlice()
+				ok := len(sl) == len(m)
+				for j := 0; ok && j < len(sl); j++ {
+					ok = string(sl[j].Key) == keys[j] && vf.Canon(sl[j].Value) == vf.Canon(m[keys[j]])
+				}
+				if !ok {
+					k.Violate("iter-mismatch", "ToSlice of an advanced iterator", fmt.Sprintf("after %d Next calls on a set of %d: %d elements", adv, len(m), len(sl)), nil)
+				}
+				if sl2 := s.ToSlice(); len(sl2) != len(m) {
+					k.Violate("iter-mismatch", "Set.ToSlice", "", nil)
+				}
+			}
 			// encoding
 			if got, want := s.Encoded(attribute.DefaultEncoder()), encodeModel(m); got != want {
 				k.Violate("encoded-mismatch", "", fmt.Sprintf("got  %s\nwant %s", vf.Quote(got), vf.Quote(want)), nil)
